@@ -1,8 +1,9 @@
 """Memoer facts for C20-C22 (hio.core.memo.memoing)."""
 import ast
+import re
 
 from .absint import Domain, Interp, NORMAL, RETURN, RAISE, is_raise
-from .astutil import method_call, unparse, parent, in_subtree, is_self_call
+from .astutil import method_call, unparse, parent, in_subtree, is_self_call, keytext
 from .index import dotted, walk_local
 from .linear import linform, same, show
 from .loader import AnalysisError
@@ -54,6 +55,7 @@ def writer_layout(run, f):
     """Order of header parts concatenated by rend(), per branch (zeroth / other):
     [(field, guard)] with field in bz nz mz vz body az, classified through def-use of the operands."""
     defs = {}
+    vidparam = f.params()[0][2] if len(f.params()[0]) > 2 else None
     for n in walk_local(f.node):
         if isinstance(n, ast.Assign) and isinstance(n.targets[0], ast.Name):
             defs.setdefault(n.targets[0].id, []).append(n.value)
@@ -72,7 +74,7 @@ def writer_layout(run, f):
         return " ".join(out)
 
     def classify(e, depth=0):
-        if isinstance(e, ast.Subscript) and dotted(e.value) == "memo":
+        if isinstance(e, ast.Subscript) and dotted(e.value) == f.params()[0][1]:
             return "body"
         if isinstance(e, ast.Name):
             t = origin_text(e.id)
@@ -80,7 +82,7 @@ def writer_layout(run, f):
                                 ("self.code", "bz"), ("self.Pairs", "bz")):
                 if marker in t:
                     return fld
-            if "vid" in t or e.id.startswith("vid"):
+            if vidparam and re.search(r"\b%s\b" % re.escape(vidparam), t):
                 return "vz"
         return "?" + unparse(e)
 
@@ -90,23 +92,34 @@ def writer_layout(run, f):
         return [e]
 
     layouts = []
-    loops = [n for n in walk_local(f.node) if isinstance(n, ast.While) and dotted(n.test) == "memo"]
+    memoparam = f.params()[0][1]
+    loops = [n for n in walk_local(f.node) if isinstance(n, ast.While) and dotted(n.test) == memoparam]
     if not loops:
         raise AnalysisError("rend(): `while memo` loop not found")
     top = [s for s in loops[0].body if isinstance(s, ast.If)]
     if not top:
         raise AnalysisError("rend(): zeroth / non-zeroth branch not found")
+    emitted = {dotted(c.args[0]) for st in loops[0].body for c in ast.walk(st)
+               if isinstance(c, ast.Call) and isinstance(c.func, ast.Attribute) and c.func.attr == "append" and c.args and isinstance(c.args[0], ast.Name)}
     for branch, body in (("zeroth", top[0].body), ("other", top[0].orelse)):
         order = []
+        # accumulators: the local appended to the result list, and every local whose concatenation is its leftmost operand
+        acc = set(emitted)
         for st in body:
             for n in ast.walk(st):
-                if isinstance(n, ast.Assign) and dotted(n.targets[0]) in ("head", "gram"):
+                if isinstance(n, ast.Assign) and dotted(n.targets[0]) in emitted:
+                    first = flatten(n.value)[0]
+                    if isinstance(first, ast.Name) and len(flatten(n.value)) > 1:
+                        acc.add(first.id)       # the head: leftmost operand of the emitted gram
+        for st in body:
+            for n in ast.walk(st):
+                if isinstance(n, ast.Assign) and dotted(n.targets[0]) in acc:
                     parts = flatten(n.value)
                     for p in parts:
-                        if dotted(p) in ("head", "gram"):
+                        if dotted(p) in acc:
                             continue
                         order.append(classify(p))
-                elif isinstance(n, ast.AugAssign) and dotted(n.target) in ("head", "gram") and isinstance(n.op, ast.Add):
+                elif isinstance(n, ast.AugAssign) and dotted(n.target) in acc and isinstance(n.op, ast.Add):
                     order.append(classify(n.value))
         layouts.append((branch, order))
     return layouts
@@ -114,27 +127,47 @@ def writer_layout(run, f):
 
 def reader_slices(run, f):
     """In pick(): for each branch (b2 / b64) the header slices gram[L:U] as linear forms over the size symbols."""
-    top = [n for n in f.node.body if isinstance(n, ast.If) and dotted(n.test) == "curt"]
+    # the encoding flag is whichever local receives self.wiff(gram)
+    flags = {t.id for n in f.node.body if isinstance(n, ast.Assign) and isinstance(n.value, ast.Call) and is_self_call(n.value, "wiff")
+             for t in n.targets if isinstance(t, ast.Name)}
+    top = [n for n in f.node.body if isinstance(n, ast.If) and dotted(n.test) in flags]
     if not top:
         raise AnalysisError("pick(): `if curt` branch not found")
     out = []
     for branch, body in (("b2", top[0].body), ("b64", top[0].orelse)):
+        # the five size locals are named by position of the unpacking of self.Sizes[code] (bz nz mz vz az), whatever they are called
+        ren = {}
+        for st in body:
+            if isinstance(st, ast.Assign) and isinstance(st.targets[0], ast.Tuple) and len(st.targets[0].elts) == 5 and "Sizes[" in unparse(st.value):
+                ren = {t.id: canon for t, canon in zip(st.targets[0].elts, SIZES) if isinstance(t, ast.Name)}
+        ozname = None
+        for st in body:
+            if isinstance(st, ast.Assign) and isinstance(st.targets[0], ast.Name) and isinstance(st.value, ast.BinOp):
+                lf = linform(st.value)
+                if lf and set(lf) == set(ren) and all(v == 1 for v in lf.values()):
+                    ozname = st.targets[0].id
+        if ozname:
+            ren[ozname] = "oz"
+
+        def canon(lf):
+            return None if lf is None else {ren.get(k, k): v for k, v in lf.items()}
+        buf = f.params()[0][1] if len(f.params()[0]) > 1 else "gram"
         rows = []
         for st in body:
             for n in ast.walk(st):
-                if isinstance(n, ast.Subscript) and dotted(n.value) == "gram" and isinstance(n.slice, ast.Slice) \
+                if isinstance(n, ast.Subscript) and dotted(n.value) == buf and isinstance(n.slice, ast.Slice) \
                         and isinstance(n.ctx, ast.Load) and n.slice.lower is not None and n.slice.upper is not None:
-                    lo, hi = linform(n.slice.lower), linform(n.slice.upper)
+                    lo, hi = canon(linform(n.slice.lower)), canon(linform(n.slice.upper))
                     rows.append((lo, hi, n))
         scaled = set()
         for st in body:
-            if isinstance(st, ast.Assign) and isinstance(st.targets[0], ast.Name) and st.targets[0].id in SIZES:
+            if isinstance(st, ast.Assign) and isinstance(st.targets[0], ast.Name) and st.targets[0].id in ren and ren[st.targets[0].id] in SIZES:
                 t = unparse(st.value).replace(" ", "")
                 if t == "3*%s//4" % st.targets[0].id:
-                    scaled.add(st.targets[0].id)
+                    scaled.add(ren[st.targets[0].id])
                 else:
-                    scaled.add(st.targets[0].id + ":" + t)
-        out.append((branch, rows, scaled, body))
+                    scaled.add(ren[st.targets[0].id] + ":" + t)
+        out.append((branch, rows, scaled, body, ren, buf))
     return out
 
 
@@ -164,16 +197,17 @@ def layout_facts(run):
                   "zeroth body is larger than the others and a memo shorter than the difference gets gram count <= 0 "
                   "('hello wo' at size 38 is delivered as '', 'hi' raises OverflowError)" % (sorted(scaled), missing)))
     prefix = {"nz": {"bz": 1}, "mz": {"bz": 1, "nz": 1}, "vz": {"bz": 1, "nz": 1, "mz": 1}}
-    for branch, rows, scaled, body in reader_slices(run, pick):
+    for branch, rows, scaled, body, ren, buf in reader_slices(run, pick):
+        inv = {v: k for k, v in ren.items()}
         seen = set()
         for lo, hi, node in rows:
             if lo is None or hi is None:
-                facts.append(("reader-slice:%s:%s" % (branch, unparse(node)), False, run.site(pick, node), "slice bounds are not linear in the size fields"))
+                facts.append(("reader-slice:%s:%s" % (branch, keytext(pick, node)), False, run.site(pick, node), "slice bounds are not linear in the size fields"))
                 continue
             width = {k: hi.get(k, 0) - lo.get(k, 0) for k in set(hi) | set(lo)}
             width = {k: v for k, v in width.items() if v}
             if len(width) != 1 or list(width.values()) != [1]:
-                facts.append(("reader-slice:%s:%s" % (branch, unparse(node)), False, run.site(pick, node), "slice width %s is not one size field" % show(width)))
+                facts.append(("reader-slice:%s:%s" % (branch, keytext(pick, node)), False, run.site(pick, node), "slice width %s is not one size field" % show(width)))
                 continue
             fld = list(width)[0]
             if fld not in prefix:
@@ -191,11 +225,11 @@ def layout_facts(run):
                           "" if ok else "in the base-2 branch the sizes scaled by 3/4 are %s; all of %s must be scaled by the same factor" % (sorted(scaled), list(SIZES))))
         # signature = last az bytes, body after oz - az
         txt = " ".join(unparse(s) for s in body)
-        ok = "gram[-az if az else len(gram):]" in txt and "del gram[:oz - az]" in txt
+        az_, oz_ = inv.get("az", "az"), inv.get("oz", "oz")
+        ok = ("%s[-%s if %s else len(%s):]" % (buf, az_, az_, buf)) in txt and ("del %s[:%s - %s]" % (buf, oz_, az_)) in txt
         facts.append(("reader-sig-and-body:%s" % branch, ok, run.site(pick),
                       "" if ok else "the %s branch must take the last az bytes as signature and strip oz - az head bytes" % branch))
-        oz = [s for s in body if isinstance(s, ast.Assign) and dotted(s.targets[0]) == "oz"]
-        ok = bool(oz) and same(linform(oz[0].value), {k: 1 for k in SIZES})
+        ok = "oz" in inv
         facts.append(("reader-overhead:%s" % branch, ok, run.site(pick), "" if ok else "oz is not bz+nz+mz+vz+az"))
     return facts
 
@@ -215,13 +249,18 @@ def guards(node, f):
 def first_only_facts(run, f):
     facts = []
     consulted = set()
+    # the memo id is the first element of what self.pick(gram) returns, whatever the local is called
+    mids = {n.targets[0].elts[0].id for n in walk_local(f.node) if isinstance(n, ast.Assign) and isinstance(n.value, ast.Call)
+            and is_self_call(n.value, "pick") and isinstance(n.targets[0], ast.Tuple) and n.targets[0].elts and isinstance(n.targets[0].elts[0], ast.Name)}
+    if len(mids) != 1:
+        raise AnalysisError("%s: `mid, ... = self.pick(gram)` not found" % f.fq)
     for n in walk_local(f.node):
         if isinstance(n, ast.Compare) and len(n.ops) == 1 and isinstance(n.ops[0], (ast.In, ast.NotIn)):
             d = dotted(n.comparators[0])
-            if d and d.startswith("self.") and dotted(n.left) == "mid":
+            if d and d.startswith("self.") and dotted(n.left) in mids:
                 consulted.add(d)
             c = n.comparators[0]
-            if isinstance(c, ast.Subscript) and dotted(c.value) and dotted(c.slice) == "mid":
+            if isinstance(c, ast.Subscript) and dotted(c.value) and dotted(c.slice) in mids:
                 consulted.add(dotted(c.value))
         if isinstance(n, ast.Assign) and isinstance(n.targets[0], ast.Subscript):
             t = n.targets[0]
@@ -237,7 +276,7 @@ def first_only_facts(run, f):
                     if isinstance(c, ast.Compare) and len(c.ops) == 1 and unparse(c.left) == key and unparse(c.comparators[0]) == where \
                             and ((isinstance(c.ops[0], ast.NotIn) and pol) or (isinstance(c.ops[0], ast.In) and not pol)):
                         ok = True
-            facts.append(("first-only:%s[%s]" % (where, key), ok, run.site(f, n),
+            facts.append(("first-only:%s" % keytext(f, t), ok, run.site(f, n),
                           "" if ok else "`%s` is not guarded by `%s not in %s`: a duplicate or replayed gram overwrites what was stored first" % (unparse(n), key, where)))
     return facts, consulted
 
@@ -246,14 +285,16 @@ def completion_facts(run, f):
     """dels after a successful fuse; returns (facts, deleted containers)"""
     facts = []
     deleted = {}
+    keyvars = set()
     for n in walk_local(f.node):
         if isinstance(n, ast.Delete):
             for t in n.targets:
-                if isinstance(t, ast.Subscript) and dotted(t.value) and dotted(t.slice) == "mid":
+                if isinstance(t, ast.Subscript) and dotted(t.value) and isinstance(t.slice, ast.Name):
                     deleted[dotted(t.value)] = n
+                    keyvars.add(t.slice.id)
     blocks = {id(parent(n)) for n in deleted.values()}
     want = {"self.rxgs", "self.counts", "self.sources", "self.vids"}
-    ok = set(deleted) >= want and len(blocks) == 1
+    ok = set(deleted) >= want and len(blocks) == 1 and len(keyvars) == 1
     facts.append(("cleanup-paired", ok, run.site(f),
                   "" if ok else "after a successful fuse %s are deleted (in %d blocks); %s must be deleted together" % (sorted(deleted), len(blocks), sorted(want))))
     return facts, set(deleted)
@@ -329,7 +370,11 @@ class GramDomain(Domain):
 
 
 def ownership_facts(run, f):
-    res = Interp(GramDomain(), run.lat).run(f.node)
+    sends = [n for n in walk_local(f.node) if isinstance(n, ast.Call) and is_self_call(n, "send") and len(n.args) >= 2
+             and all(isinstance(a, ast.Name) for a in n.args[:2])]
+    if not sends:
+        raise AnalysisError("%s: `self.send(gram, dst)` not found" % f.fq)
+    res = Interp(GramDomain(sends[0].args[0].id, sends[0].args[1].id), run.lat).run(f.node)
     run.paths += len(res)
     facts = []
     for (st, oc), tr in sorted(res.items(), key=lambda kv: str(kv[0])):
